@@ -259,3 +259,229 @@ class P(EngProp):
 
 
 PROP = P()
+
+
+# ---------------------------------------------------------------------------------------------------------------
+# part 2: the path-expression parser itself (jsonexpr.Parse), which the engine cases above take for granted
+from vlib import clist as _clist, b64d as _b64d
+
+
+class JPathP:
+    id = "C06"
+    name = "jsonpath-parse"
+    driver = "JPath"
+    shard = 10
+    chunk = 5
+    rule = ("part `jsonpath-parse`: JSON path expressions a.b[0][\"k\"] built from identifiers, quoted keys (printable ASCII incl. escaped quote and backslash, keys ending in a "
+            "backslash, empty key) and indexes (incl. leading zeros, 18 digits), with and without the leading dot; the generator states the selectors the text denotes and "
+            "the check demands them from jsonexpr.Parse; plus single-character mutations and random strings over the path alphabet, where implementation and Coq model "
+            "(Model/JsonPath.v) must agree on selectors or on rejection. 40 expressions per case.")
+    trusted = ["strconv.Unquote modelled for printable ASCII with the escapes of quote and backslash, strconv.Atoi for up to 18 digits (other inputs are judged on the observed answer only)"]
+    assumptions = []
+
+    ALPHA = list('ab_9.[]"\\ 0x-') + ["é"]
+
+    def gen_item(self, rng, first):
+        k = rng.randrange(4)
+        if k == 0:
+            name = rng.choice(["a", "b_c", "_x", "level", "A9", "nested"])
+            return ("" if first and rng.random() < 0.5 else ".") + name, ("k", name.encode())
+        if k == 1:
+            key = rng.choice(["k", "user.name", "a b", 'q"uote', "back\\slash", "end\\", "\\", "", "x]y", "[0]", 'a\\"b', "http-status"])
+            esc = key.replace("\\", "\\\\").replace('"', '\\"')
+            return '["%s"]' % esc, ("k", key.encode())
+        if k == 2:
+            ds = rng.choice(["0", "1", "7", "12", "007", "123456789012345678", "00"])
+            return "[%s]" % ds, ("i", int(ds))
+        name = rng.choice(["a", "z9"])
+        return "." + name, ("k", name.encode())
+
+    def gen(self, rng, tier):
+        n = {"quick": 12, "thorough": 120, "search": 40}[tier]
+        cases = []
+        for _ in range(n):
+            items = []
+            for j in range(40):
+                mode = rng.randrange(10)
+                if mode <= 5:
+                    parts = [self.gen_item(rng, i == 0) for i in range(rng.randint(1, 4))]
+                    items.append({"in": b64e("".join(p[0] for p in parts)), "exp": [[t, (b64e(v) if t == "k" else v)] for _, (t, v) in parts]})
+                elif mode <= 7:
+                    parts = [self.gen_item(rng, i == 0) for i in range(rng.randint(1, 3))]
+                    s = "".join(p[0] for p in parts)
+                    i = rng.randrange(len(s) + 1)
+                    m = rng.randrange(3)
+                    if m == 0 and s:
+                        s = s[:i] + s[i + 1:]
+                    elif m == 1:
+                        s = s[:i] + rng.choice(self.ALPHA) + s[i:]
+                    elif s:
+                        i = min(i, len(s) - 1)
+                        s = s[:i] + rng.choice(self.ALPHA) + s[i + 1:]
+                    items.append({"in": b64e(s), "exp": None})
+                else:
+                    s = "".join(rng.choice(self.ALPHA) for _ in range(rng.randint(0, 8)))
+                    items.append({"in": b64e(s), "exp": None})
+            cases.append({"kind": "jsonpath-parse", "items": items})
+        self.nitems = sum(len(c["items"]) for c in cases)
+        return cases
+
+    def request(self, c):
+        return {"cmd": "parsepath", "inputs": [it["in"] for it in c["items"]]}
+
+    @staticmethod
+    def sels_coq(sels):
+        return _clist(("JKey %s" % cbytes(_b64d(v))) if t == "k" else ("JIdx %d" % v) for t, v in sels)
+
+    def to_coq(self, c, r):
+        outs = r.get("outputs")
+        if outs is None or len(outs) != len(c["items"]):
+            return None
+        its = []
+        for it, o in zip(c["items"], outs):
+            if "err" in o:
+                obs = "ObsErr"
+            else:
+                obs = "ObsOk %s" % self.sels_coq([("k", s["k"]) if "k" in s else ("i", s["i"]) for s in o["sels"]])
+            exp = "None" if it["exp"] is None else "(Some %s)" % self.sels_coq(it["exp"])
+            its.append("mkp %s %s (%s)" % (cbytes(_b64d(it["in"])), exp, obs))
+        return "mk %s" % _clist(its)
+
+    def model_exprs(self, term):
+        return ["map (fun c => parse_path (p_in c)) (items (%s))" % term, "map judge1 (items (%s))" % term]
+
+    def trivial(self, c, r):
+        return False
+
+    def sample(self, c, r):
+        outs = r.get("outputs") or []
+        return {"kind": "jsonpath-parse", "inputs": [_b64d(it["in"]).decode("utf-8", "replace") for it in c["items"][:5]],
+                "observed": [("error" if "err" in o else "%d selectors" % len(o["sels"])) for o in outs[:5]]}
+
+    def distribution(self, cases, resps):
+        d = {"expressions": 0, "with_expectation": 0, "accepted": 0, "rejected": 0}
+        for c, r in zip(cases, resps):
+            for it, o in zip(c["items"], r.get("outputs") or []):
+                d["expressions"] += 1
+                d["with_expectation"] += it["exp"] is not None
+                d["rejected" if "err" in o else "accepted"] += 1
+        return d
+
+    def extra_coverage(self, tier):
+        return {"path_expressions_evaluated": getattr(self, "nitems", 0)}
+
+    def shrink(self, c):
+        its = c["items"]
+        if len(its) > 1:
+            h = len(its) // 2
+            yield dict(c, items=its[:h])
+            yield dict(c, items=its[h:])
+
+
+P.name = "stages"
+PROP.parts = [PROP, JPathP()]
+
+
+# ---------------------------------------------------------------------------------------------------------------
+# part 3: the pattern parser (logqlpattern.Parse)
+class PatParseP(JPathP):
+    name = "pattern-parse"
+    driver = "PatParse"
+    rule = ("part `pattern-parse`: patterns alternating literals and <name> captures (literals with spaces, punctuation, '<' that does not start a name, '>' alone, "
+            "multi-byte UTF-8; captures incl. `_`), with the parts stated by the generator and demanded from logqlpattern.Parse; plus patterns the parser must "
+            "reject (no capture, consecutive captures, duplicate names), unterminated `<name`, single-character mutations and random strings over the pattern alphabet, "
+            "where implementation and Coq model (Model/PatternParse.v) must agree on the parts or on rejection. 40 patterns per case.")
+    trusted = ["valid UTF-8 patterns only (an invalid byte in a pattern would be rewritten to U+FFFD by WriteRune; not generated)"]
+    ALPHA = list("ab_<> .-1") + ["é", "<a>", "<_>"]
+
+    def gen_good(self, rng):
+        n = rng.randint(1, 3)
+        names = rng.sample(["a", "b", "ip", "_x", "method", "c9"], n)
+        parts = []
+        if rng.random() < 0.5:
+            parts.append(("lit", rng.choice(["GET ", "[", "x=", "< ", "<1>", "é ", "a>b"])))
+        for i, nm in enumerate(names):
+            parts.append(("cap", nm if rng.random() < 0.8 else "_"))
+            if i + 1 < len(names) or rng.random() < 0.6:
+                parts.append(("lit", rng.choice([" ", " - ", "] ", ",", "<>", " <", "é", ">"])))
+        # a literal ending in '<' directly before a capture would read as "<<name>": keep it as generated, the statement of parts stays valid
+        text = "".join(("<%s>" % v) if t == "cap" else v for t, v in parts)
+        # merge rule: none needed, generated literals never sit next to each other
+        return text, parts
+
+    def gen(self, rng, tier):
+        n = {"quick": 12, "thorough": 120, "search": 40}[tier]
+        cases = []
+        for _ in range(n):
+            items = []
+            for j in range(40):
+                mode = rng.randrange(10)
+                if mode <= 4:
+                    text, parts = self.gen_good(rng)
+                    caps = [v for t, v in parts if t == "cap" and v != "_"]
+                    ok = len(set(caps)) == len(caps) and not any(a[0] == "cap" and b[0] == "cap" for a, b in zip(parts, parts[1:])) \
+                        and not any(t == "lit" and v.endswith("<") and i + 1 < len(parts) for i, (t, v) in enumerate(parts))
+                    items.append({"in": b64e(text), "exp": [[t, b64e(v)] for t, v in parts] if ok else None})
+                elif mode == 5:
+                    items.append({"in": b64e(rng.choice(["plain", "", "<a><b>", "<a> <a>", "<a", "<a b>", "<1>", "x<a", "<_>", "<_> <_>", "<a>x<a"])), "exp": None})
+                elif mode <= 7:
+                    s, _ = self.gen_good(rng)
+                    i = rng.randrange(len(s) + 1)
+                    m = rng.randrange(3)
+                    if m == 0 and s:
+                        s = s[:i] + s[i + 1:]
+                    elif m == 1:
+                        s = s[:i] + rng.choice(self.ALPHA) + s[i:]
+                    elif s:
+                        i = min(i, len(s) - 1)
+                        s = s[:i] + rng.choice(self.ALPHA) + s[i + 1:]
+                    items.append({"in": b64e(s), "exp": None})
+                else:
+                    items.append({"in": b64e("".join(rng.choice(self.ALPHA) for _ in range(rng.randint(0, 7)))), "exp": None})
+            cases.append({"kind": "pattern-parse", "items": items})
+        self.nitems = sum(len(c["items"]) for c in cases)
+        return cases
+
+    def request(self, c):
+        return {"cmd": "parsepattern", "inputs": [it["in"] for it in c["items"]]}
+
+    @staticmethod
+    def parts_coq(parts):
+        return _clist(("PCap %s" % cbytes(_b64d(v))) if t == "cap" else ("PLit %s" % cbytes(_b64d(v))) for t, v in parts)
+
+    def to_coq(self, c, r):
+        outs = r.get("outputs")
+        if outs is None or len(outs) != len(c["items"]):
+            return None
+        its = []
+        for it, o in zip(c["items"], outs):
+            if "err" in o:
+                obs = "PObsErr"
+            else:
+                obs = "PObsOk %s" % self.parts_coq([("cap", p["cap"]) if "cap" in p else ("lit", p["lit"]) for p in o["parts"]])
+            exp = "None" if it["exp"] is None else "(Some %s)" % self.parts_coq(it["exp"])
+            its.append("mkpp %s %s (%s)" % (cbytes(_b64d(it["in"])), exp, obs))
+        return "mk %s" % _clist(its)
+
+    def model_exprs(self, term):
+        return ["map (fun c => parse_pattern (pp_in c)) (items (%s))" % term, "map judge1 (items (%s))" % term]
+
+    def sample(self, c, r):
+        outs = r.get("outputs") or []
+        return {"kind": "pattern-parse", "inputs": [_b64d(it["in"]).decode("utf-8", "replace") for it in c["items"][:5]],
+                "observed": [("error" if "err" in o else "%d parts" % len(o["parts"])) for o in outs[:5]]}
+
+    def distribution(self, cases, resps):
+        d = {"patterns": 0, "with_expectation": 0, "accepted": 0, "rejected": 0}
+        for c, r in zip(cases, resps):
+            for it, o in zip(c["items"], r.get("outputs") or []):
+                d["patterns"] += 1
+                d["with_expectation"] += it["exp"] is not None
+                d["rejected" if "err" in o else "accepted"] += 1
+        return d
+
+    def extra_coverage(self, tier):
+        return {"patterns_evaluated": getattr(self, "nitems", 0)}
+
+
+PROP.parts = [PROP, JPathP(), PatParseP()]
